@@ -704,6 +704,13 @@ pub(crate) mod verif_impl {
             kind | ((force as u64) << 7),
             id as u64,
         );
+        if let CollectCommand::SubmitSpans(c) = cmd {
+            // one more log line per further token item, so that every trace a span set is
+            // submitted to is known
+            for item in c.collect_token.iter().skip(1) {
+                crate::verif::point(crate::verif::P_SUBMIT_ITEM, 0, item.collect_id as u64);
+            }
+        }
     }
 
     /// Runs one collector cycle on the calling thread.
